@@ -661,7 +661,14 @@ def run_infw(spec):
             ev2 = ev2[np.argsort(-np.abs(ev2))]
             if len(ev2) > 1 and abs(ev2[1]) > (1 - 1e-6) * abs(ev2[0]):
                 raise Skip()  # dominant eigenvalue not unique in modulus
-            got = psi.overlap(phi)
+            try:
+                got = psi.overlap(phi)
+            except Exception as e:
+                if type(e).__name__ == 'ArpackError' and np.max(np.abs(T)) < 1e-14:
+                    # the two states share no charge sector on some bond: the overlap per unit cell is exactly 0
+                    raise Violation('overlap-infinite-vanishing-transfer-matrix', 'psi.overlap(phi) raises %s: %s although the mixed transfer matrix vanishes identically '
+                                    '(overlap 0)' % (type(e).__name__, e), **tags)
+                raise
             require(abs(got - ev2[0]) < 1e-7, 'overlap-infinite', 'psi.overlap(phi) = %r, dominant eigenvalue of the mixed transfer matrix %r' % (got, ev2[0]), **tags)
             got1 = psi.overlap(psi)
             require(abs(got1 - 1.) < 1e-8, 'overlap-infinite', 'psi.overlap(psi) = %r' % got1, same=True, **tags)
